@@ -26,7 +26,8 @@ PathToks == { <<"/">>, <<".">>, <<"x">>, <<"%","2","e">>, <<"%","2","f">>, <<"%"
 Paths(n) == { <<>> } \cup { <<"/">> \o FlattenSeq(ts) : ts \in SeqsUpTo(PathToks, n) }
 NoQ == <<"-">>      \* marker: component absent
 Queries == { NoQ, <<>>, <<"a","=","1","&","b","=","2">>, <<"a","=","%","z","z","+","%","2","6">>,
-             <<"u","=","h","t","t","p",":","/","/","x","/","y">>, <<"a","?","b">> }
+             <<"u","=","h","t","t","p",":","/","/","x","/","y">>, <<"a","?","b">>,
+             <<"a","=","1","&","b">>, <<"a","&","b","=">> }    \* value-less / empty-valued last argument
 Frags == { NoQ, <<>>, <<"f">>, <<"f","?","x","#","y">> }
 
 Assemble(s, ui, h, po, pa, q, f) ==
